@@ -105,6 +105,22 @@ def rule_book(c, prog, reader_rule=True):
         c.ok(R, "from_raw:duplicate-check")
     else:
         c.violation(R, "from_raw|dup", "from_raw no longer panics when `unique_ids.insert` reports a duplicate", fr.sp, instance="from_raw:duplicate-check")
+    # ... and registers the id of EVERY instance of the map: the registering loop ranges over the map itself, not over a
+    # traversal from the root (the map may hold instances that are not descendants of the chosen root)
+    reg_loops = []
+    for nn in core.walk_fn(fr):
+        if nn.get("k") == "DropTemps":
+            continue
+        fl = core.as_for(nn)
+        if fl is not None and any(x.get("k") == "MethodCall" and x["m"] == "insert" and "HashSet<rbx_types::unique_id::UniqueId" in (core.strip(x["recv"]).get("ty") or "").replace("ahash::hash_set::A", "") for x in core.walk(fl[2])):
+            reg_loops.append(fl)
+    over_map = [fl for fl in reg_loops if any("HashMap<rbx_types::referent::Ref, rbx_dom_weak::instance::Instance" in (y.get("ty") or "").replace("ahash::hash_map::A", "") and y.get("k") in ("Path", "Field") for y in core.walk(fl[1])) and not any(y.get("k") == "MethodCall" and y["m"] in ("descendants", "descendants_of", "children", "filter", "take", "skip", "take_while", "skip_while") for y in core.walk(fl[1]))]
+    if reg_loops and len(over_map) == len(reg_loops):
+        c.ok(R, "from_raw:registers-every-instance")
+    elif not reg_loops:
+        c.not_decided.append("from_raw: no loop registering UniqueIds was recognised")
+    else:
+        c.violation(R, "from_raw|partial", "from_raw collects the UniqueIds from a traversal (or a filtered view) instead of from the whole `instances` map: an instance that is in the map but not below the chosen root keeps an id the DOM does not know, so a later insert / transfer of the same id is not seen as a collision", fr.sp, instance="from_raw:registers-every-instance")
 
 
 def pat_binding_lids(p):
